@@ -286,6 +286,24 @@ def check_to_dict(col, arr, genome, dense, sig, case, what="to_dict"):
     return good
 
 
+def check_histogram(col, arr, genome, dense, sig, case, kws=({"bins": 4, "range": (-2, 4)},)):
+    """np.histogram on the genomic array == np.histogram on the dense concatenated array (counts and edges)"""
+    import numpy as np
+    flat = np.array([x for n, _ in genome for x in dense[n]])
+    if flat.dtype == bool:
+        flat = flat.astype(int)     # NumPy's histogram of booleans is the histogram of 0/1
+    for kw in kws:
+        h = col.guarded(lambda: np.histogram(arr, **kw), sig + ":histogram", case)
+        if h is None:
+            continue
+        eh = np.histogram(flat, **kw)
+        gc, ge, ee = np.asarray(h[0]), np.asarray(h[1], dtype=float), np.asarray(eh[1], dtype=float)
+        col.check(lists_equal(gc.tolist(), eh[0].tolist()), sig + ":histogram:wrong-counts", case,
+                  "%r: got %r expected %r" % (kw, gc.tolist(), eh[0].tolist()))
+        col.check(ge.shape == ee.shape and bool(np.allclose(ge, ee, rtol=1e-12, atol=1e-12)), sig + ":histogram:wrong-edges", case,
+                  "%r: got %r expected %r" % (kw, h[1], eh[1]))
+
+
 def check_backconversion(col, arr, genome, dense, sig, case, is_bool=None, data=None):
     """get_data(): records in genome order, non-overlapping, inside the chromosome, expanding to `dense`.
     Boolean arrays give intervals (expand: True inside, False outside), others give bedGraph records."""
@@ -378,6 +396,7 @@ def check_track(col, case, tmp=None):
     got = col.guarded(lambda: (np.sum(t), t.sum()), sig + ":sum", case)
     if got is not None:
         col.check(got[0] == total and got[1] == total, "track:sum:wrong", case, "got %r expected %r" % (got, total))
+    check_histogram(col, t, genome, dense, "track", case)
     data = check_backconversion(col, t, genome, dense, sig, case)
     if data is not None and route == "get_track" and not (t.dtype == bool):
         # round trip: the bedGraph given back builds the same array again
@@ -527,6 +546,8 @@ def check_cover(col, case):
     got = col.guarded(lambda: (np.sum(arr), arr.sum()), sig + ":sum", case)
     if got is not None:
         col.check(got[0] == total and got[1] == total, sig + ":sum:wrong", case, "got %r expected %r" % (got, total))
+    if what == "get_pileup":
+        check_histogram(col, arr, genome, dense, sig, case)
     data = check_backconversion(col, arr, genome, dense, sig, case)
     if data is not None and what == "get_mask" and arr.dtype == bool:
         # intervals -> mask -> intervals -> mask is the identity on the dense array
@@ -726,15 +747,8 @@ def check_expr(col, env, leafcase, e, full=True):
     if not full:
         return
     if exp.dtype != bool:
-        for kw in ({}, {"bins": 3, "range": (-1, 4)}, {"bins": [-4, 0, 0.5, 2, 16]}):
-            h = col.guarded(lambda: np.histogram(got, **kw), "expr:histogram", case)
-            if h is not None:
-                eh = np.histogram(exp, **kw)
-                col.check(lists_equal(np.asarray(h[0]).tolist(), eh[0].tolist()), "expr:histogram:wrong-counts", case,
-                          "%s %r: got %r expected %r" % (expr_str(e), kw, np.asarray(h[0]).tolist(), eh[0].tolist()))
-                ge, ee = np.asarray(h[1], dtype=float), np.asarray(eh[1], dtype=float)
-                col.check(ge.shape == ee.shape and bool(np.allclose(ge, ee, rtol=1e-12, atol=1e-12)),
-                          "expr:histogram:wrong-edges", case, "%s %r: got %r expected %r" % (expr_str(e), kw, h[1], eh[1]))
+        check_histogram(col, got, genome, dense, "expr", case,
+                        kws=({}, {"bins": 3, "range": (-1, 4)}, {"bins": [-4, 0, 0.5, 2, 16]}))
     check_backconversion(col, got, genome, dense, "expr", case, is_bool=bool(exp.dtype == bool))
 
 
@@ -792,7 +806,7 @@ def run_expressions(col, tier):
     d2 = None
     # depth 2: exhaustive over the typed grammar on a few leaf sets (thorough) / a strided + seeded sample (quick)
     deep = [2, 7, 12, 31, 33] if tier == "quick" else [2, 7, 12, 23, 31, 33]
-    per_set = 700 if tier == "quick" else None
+    per_set = 500 if tier == "quick" else None
     for idx, leafcase in enumerate(sets):
         if col.out_of_time():
             return
